@@ -224,10 +224,13 @@ class Parser(object):
             )
             decls[decl.name] = decl
 
+        walked = set()
+
         def declare_all(nodes_):
             for node in nodes_:
-                if isinstance(node, model.Include):
-                    """ what an included file includes is visible too, as in C """
+                if isinstance(node, model.Include) and node.name not in walked:
+                    """ what an included file includes is visible too, as in C (each file is walked once) """
+                    walked.add(node.name)
                     declare_all(node.members)
                 if isinstance(node, model.Constant):
                     declare(self.constdecls, node)
